@@ -10,6 +10,7 @@ package harness
 
 import (
 	"bufio"
+	"bytes"
 	"crypto/sha256"
 	"encoding/hex"
 	"encoding/json"
@@ -403,6 +404,9 @@ func Main(id, level string, run func(e *Env)) {
 		if len(args) < 2 {
 			fmt.Fprintln(os.Stderr, "usage: replay <file>")
 			os.Exit(2)
+		}
+		if os.Getenv("VERIF_REPLAY_INNER") == "" {
+			os.Exit(superviseReplay(id, args[1]))
 		}
 		os.Exit(replay(id, level, seed, args[1], run, true))
 	case "quick", "thorough":
@@ -846,6 +850,54 @@ func limitMap(m map[string]string, n int) map[string]string {
 }
 
 // replay re-executes one recorded case in this process. Exit 1 + VIOLATION if it fails again.
+// superviseReplay runs the replay in a child process, so that a case whose recorded verdict is the death of
+// the worker (deadline backstop, fatal runtime error, stack overflow) reproduces as that verdict instead of
+// taking the replaying process down with it.
+func superviseReplay(id, path string) int {
+	var rec struct {
+		Desc string `json:"desc"`
+		Sig  string `json:"signature"`
+	}
+	if b, err := os.ReadFile(path); err == nil {
+		_ = json.Unmarshal(b, &rec)
+	}
+	self, _ := os.Executable()
+	cmd := exec.Command(self, "replay", path)
+	cmd.Env = append(os.Environ(), "VERIF_REPLAY_INNER=1")
+	var eb bytes.Buffer
+	cmd.Stdout = os.Stdout
+	cmd.Stderr = &eb
+	err := cmd.Run()
+	stderr := eb.String()
+	code := 0
+	if err != nil {
+		code = -1
+		if cmd.ProcessState != nil && cmd.ProcessState.Exited() {
+			code = cmd.ProcessState.ExitCode()
+		}
+	}
+	death := ""
+	switch {
+	case code == 3, code == -1:
+		death = "died:" + classifyDeath(stderr)
+	case code == 2 && (strings.Contains(stderr, "\nfatal error:") || strings.HasPrefix(stderr, "fatal error:") ||
+		strings.Contains(stderr, "goroutine stack exceeds") || strings.Contains(stderr, "\npanic:") || strings.HasPrefix(stderr, "panic:")):
+		death = "died:" + classifyDeath(stderr)
+	}
+	if death == "" {
+		os.Stderr.WriteString(stderr)
+		return code
+	}
+	if rec.Sig != "" && death != rec.Sig {
+		fmt.Fprintf(os.Stderr, "replay: signature changed: recorded %q, now %q\n%s\n", rec.Sig, death, tail(stderr, 2000))
+		return 2
+	}
+	if os.Getenv("VERIF_REPLAY_QUIET") == "" {
+		fmt.Printf("VIOLATION property=%s replay=%s\n  case: %s\n  signature: %s\n  %s\n", id, path, rec.Desc, death, firstLines(tail(stderr, 3000), 30))
+	}
+	return 1
+}
+
 func replay(id, level string, seed int64, path string, run func(e *Env), print bool) int {
 	b, err := os.ReadFile(path)
 	if err != nil {
@@ -874,6 +926,18 @@ func replay(id, level string, seed int64, path string, run func(e *Env), print b
 		e.replaySpace = r.Space
 	}
 	e.maxFailKeep = 1 << 30
+	// the same per-case backstop as in a worker
+	go func() {
+		for {
+			time.Sleep(500 * time.Millisecond)
+			st := e.caseStart.Load()
+			if st != 0 && time.Since(time.Unix(0, st)) > e.CaseDeadline {
+				d, _ := e.curDesc.Load().(string)
+				fmt.Fprintf(os.Stderr, "\nVERIF-DEADLINE %s\n", d)
+				os.Exit(3)
+			}
+		}
+	}()
 	run(e)
 	quiet := os.Getenv("VERIF_REPLAY_QUIET") != ""
 	if e.rep.Evaluations == 0 {
